@@ -1,5 +1,5 @@
 import SasLexer.Spec.Basic
-import SasLexer.Msgpack
+import SasLexer.MsgpackDefs
 /-!
 # C20 — the Python binding's positional contract (source × returned msgpack bytes)
 
